@@ -483,9 +483,27 @@ class Context:
             if rc == "unsat":
                 r, backend = z3.unsat, "cvc5"
             else:
-                self.solver.set("timeout", timeout_ms)
-                r = self._check(neg)
-                backend = "z3-long"
+                # z3's non-linear search is sensitive to its random choices: a few short restarts on a fresh solver with other seeds
+                # (only an unsat answer is taken from them), then the full budget on the path's own solver
+                for attempt in range(1, 5):
+                    s3 = z3.Solver()
+                    s3.set("timeout", 2 * first)
+                    s3.set("random_seed", 7919 * attempt)
+                    s3.add(*self.solver.assertions())
+                    s3.add(neg)
+                    t0 = time.time()
+                    self.queries += 1
+                    r3 = s3.check()
+                    self.solver_s += time.time() - t0
+                    if r3 == z3.unsat:
+                        r, backend = z3.unsat, f"z3-restart{attempt}"
+                        break
+                    if r3 == z3.sat:
+                        break
+                if r != z3.unsat:
+                    self.solver.set("timeout", timeout_ms)
+                    r = self._check(neg)
+                    backend = "z3-long"
         self.solver.set("timeout", self.timeout_ms)
         if rec is not None:
             rec["backend"] = backend
